@@ -22,11 +22,15 @@ type SegCase struct {
 	Times bool       `json:"times"`
 	V1    bool       `json:"v1"`
 	Msgs  []CodecMsg `json:"msgs"`
-	Only  string     `json:"only,omitempty"` // replay: restrict to the damage with this description
+	// IdxOther: the (valid) index of the undamaged segment is in the other container version than the log,
+	// as it is after a lazy rebuild under another NewSegmentsVersion
+	IdxOther bool   `json:"idx_other_container,omitempty"`
+	Only     string `json:"only,omitempty"` // replay: restrict to the damage with this description
 }
 
 func genSegCase(t *rapid.T) *SegCase {
 	c := &SegCase{Keys: rapid.Bool().Draw(t, "keys"), Times: rapid.Bool().Draw(t, "times"), V1: uni(t, 4, "v1") == 3}
+	c.IdxOther = uni(t, 3, "idx_other") == 2
 	n := 1 + uni(t, 6, "n")
 	ts := int64(10)
 	// a single segment at base 0 carries no timestamp in from an older segment, so Check/Recover must
@@ -98,9 +102,12 @@ func runSegCase(c *SegCase, st *Stats) {
 	if !clean || len(recs) != len(c.Msgs) || int(end) != len(logB) || v2 == c.V1 {
 		cfail("recover", "the reference parser does not accept a freshly written segment: %d of %d records, clean=%v, v2=%v", len(recs), len(c.Msgs), clean, v2)
 	}
-	items, _, ierr := RefParseIndex(idxB, c.Keys, c.Times)
+	items, idxV2, ierr := RefParseIndex(idxB, c.Keys, c.Times)
 	if ierr != nil || !itemsEq(items, RefDerive(recs, c.Keys, c.Times)) {
 		cfail("recover", "index of a freshly written segment differs from the derived index: %v", ierr)
+	}
+	if c.IdxOther {
+		idxB = RefEncodeIndex(!idxV2, items, c.Keys, c.Times)
 	}
 	segID := fmt.Sprintf("%x", sha8(append(append([]byte{}, logB...), idxB...)))
 
